@@ -138,6 +138,35 @@ func lookupInvariant(fn string, ps panicSite) (string, bool) {
 	return "", false
 }
 
+// lookupInvariantUp: the table entry of the function itself, or - for an unexported helper - an
+// entry of the same kind held by every one of its callers (a panic moved into an extracted helper
+// keeps the invariant of the functions it was extracted from).
+func (w *World) lookupInvariantUp(f *ssa.Function, ps panicSite, depth int) (string, bool) {
+	if reason, ok := lookupInvariant(shortFuncName(f), ps); ok {
+		return reason, true
+	}
+	if depth >= 2 || f.Parent() != nil || f.Object() == nil || f.Object().Exported() {
+		return "", false
+	}
+	var reasons []string
+	n := 0
+	for _, e := range w.CG.CallersOf(f) {
+		if e.Callback || e.Mode != ModeSync {
+			return "", false
+		}
+		n++
+		r, ok := w.lookupInvariantUp(enclosingNamed(e.Caller), ps, depth+1)
+		if !ok {
+			return "", false
+		}
+		reasons = append(reasons, r)
+	}
+	if n == 0 {
+		return "", false
+	}
+	return "helper of " + strings.Join(uniq(reasons), " / "), true
+}
+
 func c01r6(w *World, rr *RuleRun) {
 	path := w.packetPathFuncs()
 	var fs []*ssa.Function
@@ -150,7 +179,7 @@ func c01r6(w *World, rr *RuleRun) {
 	for _, f := range fs {
 		for _, ps := range w.panicSites(f) {
 			name := shortFuncName(f)
-			if reason, ok := lookupInvariant(name, ps); ok {
+			if reason, ok := w.lookupInvariantUp(f, ps, 0); ok {
 				assumed = append(assumed, name+" "+ps.Kind+" "+ps.Desc+": "+reason)
 				rr.At(w, ps.Ins, ps.Kind+" site "+ps.Desc, true, "assumed invariant: "+reason)
 				continue
